@@ -19,6 +19,12 @@ import (
 // bound restored, every deletion notification delivered.
 func init() { engines["drain"] = runDrain }
 
+// noTickClock: the harness owns the ticks of this clock and fires none.
+type noTickClock struct{ *hookClock }
+
+func (noTickClock) Tick(d time.Duration) <-chan time.Time { return make(chan time.Time) }
+
+
 func runDrain(seed uint64, scale int, out string, _ string) *summary {
 	r := &rng{s: seed}
 	sum := newSummary("drain", seed)
@@ -41,10 +47,13 @@ func runDrain(seed uint64, scale int, out string, _ string) *summary {
 	//   V6  the caller-runs fallback: the write buffer (shrunk to 4 for this cache) is full while the
 	//       eviction lock is held, a writer exhausts its retries and waits for the lock to run the
 	//       maintenance itself; during that run another write is recorded: the writer must hand over.
+	//   V7  a write made by another goroutine while InvalidateAll holds the eviction lock (past its own
+	//       drain of the write buffer: the window is reached through the Clock sample InvalidateAll
+	//       takes under the lock): the writer cannot start maintenance, InvalidateAll must hand over.
 	scripted := 60 * scale
 	stranded := 0
 	for sc := 0; sc < scripted && stranded < 6; sc++ {
-		variant := sc % 6
+		variant := sc % 7
 		var armed2, armed8, armed5 atomic.Int32
 		arrived5 := make(chan struct{}, 1)
 		release5 := make(chan struct{})
@@ -91,12 +100,18 @@ func runDrain(seed uint64, scale int, out string, _ string) *summary {
 		if variant == 5 {
 			oldMaxWB = otter.VerifSetMaxWriteBufferSize(4)
 		}
-		c := otter.Must(&otter.Options[int, int]{
+		dopts := &otter.Options[int, int]{
 			MaximumSize:      1 + sc%4,
 			OnAtomicDeletion: func(e otter.DeletionEvent[int, int]) { atomicEv.Add(1) },
 			OnDeletion:       func(e otter.DeletionEvent[int, int]) { asyncEv.Add(1) },
 			Logger:           &otter.NoopLogger{},
-		})
+		}
+		clk7 := &hookClock{start: time.Now()}
+		if variant == 6 {
+			dopts.Clock = noTickClock{clk7} // consulted only by caches that track time; its ticks never fire, so the periodic clean-up cannot come to the rescue a second later
+			dopts.ExpiryCalculator = otter.ExpiryWriting[int, int](time.Hour)
+		}
+		c := otter.Must(dopts)
 		if variant == 5 {
 			otter.VerifSetMaxWriteBufferSize(oldMaxWB)
 		}
@@ -246,6 +261,30 @@ func runDrain(seed uint64, scale int, out string, _ string) *summary {
 			for range view {
 				c.Set(10+n, n)
 				n++
+			}
+			close(doneB)
+		case 6:
+			// V7: InvalidateAll holds the eviction lock and has already drained the write buffer itself when
+			// another goroutine's write is recorded (that writer's TryLock fails); nothing else will run the
+			// maintenance unless InvalidateAll reschedules after unlocking
+			c.Set(1, 1)
+			c.Set(2, 2)
+			for i := 0; i < 4000; i++ {
+				if st, wb := otter.VerifDrainState(c); st == 0 && wb == 0 {
+					break
+				}
+				time.Sleep(50 * time.Microsecond)
+			}
+			reached := false
+			f := func() {
+				dw := make(chan struct{})
+				go func() { c.Set(50, 50); close(dw) }()
+				reached = waitCh(dw)
+			}
+			clk7.hook.Store(&f)
+			c.InvalidateAll()
+			if !reached {
+				ok = false
 			}
 			close(doneB)
 		default:
